@@ -192,8 +192,16 @@ func New(l *lexer.Lexer, options ...Option) *Parser {
 // nextToken moves to the next token from the lexer, updating all of
 // prevToken, curToken, and peekToken.
 func (p *Parser) nextToken() error {
-	// If we have an error, we can't move forward
+	// If we have an error, we can't move forward. Present the end of the input
+	// from here on: callers that loop until they see a closing token (and do
+	// not check the returned error) would otherwise never terminate.
 	if p.err != nil {
+		eof := token.Token{
+			Type:          token.EOF,
+			StartPosition: p.curToken.StartPosition,
+			EndPosition:   p.curToken.EndPosition,
+		}
+		p.prevToken, p.curToken, p.peekToken = p.curToken, eof, eof
 		return p.err
 	}
 	var err error
